@@ -22,17 +22,11 @@ pub uninterp spec fn rfc6979_k<D>(d: Seq<u8>, z: Seq<u8>, extra: Seq<u8>) -> Seq
 pub uninterp spec fn der_enc(sig: SigV) -> Seq<u8>;
 pub uninterp spec fn der_dec(b: Seq<u8>) -> Option<SigV>;              // strict DER of two in-range non-zero integers, no trailing bytes
 pub uninterp spec fn valid_sig_scalars(r: Seq<u8>, s: Seq<u8>) -> bool;    // both 32 bytes, non-zero, < n
-pub uninterp spec fn hex_enc(b: Seq<u8>) -> Seq<char>;
-pub uninterp spec fn hex_dec(s: Seq<char>) -> Option<Seq<u8>>;
-pub uninterp spec fn b58_enc(b: Seq<u8>) -> Seq<char>;
-pub uninterp spec fn b58_dec(s: Seq<char>) -> Option<Seq<u8>>;
 
 // ---- named axioms (each listed in the evidence under trusted_base) ----
 pub axiom fn axiom_der_roundtrip(sig: SigV) requires valid_sig_scalars(sig.r, sig.s) ensures der_dec(der_enc(sig)) == Some(sig);
 pub axiom fn axiom_der_dec_valid(b: Seq<u8>) ensures der_dec(b) is Some ==> valid_sig_scalars(der_dec(b)->Some_0.r, der_dec(b)->Some_0.s) && der_enc(der_dec(b)->Some_0) == b;
 pub axiom fn axiom_der_no_trailing(b: Seq<u8>, x: u8) ensures der_dec(b) is Some ==> der_dec(b.push(x)) is None;
-pub axiom fn axiom_b58_roundtrip(b: Seq<u8>) ensures b58_dec(b58_enc(b)) == Some(b);
-pub axiom fn axiom_hex_roundtrip(b: Seq<u8>) ensures hex_dec(hex_enc(b)) == Some(b);
 pub axiom fn axiom_sec1_forms(pt: Seq<u8>, c: bool) ensures sec1_valid(sec1_form(pt, c)) ==> sec1_point(sec1_form(pt, c)) == pt && sec1_is_compressed(sec1_form(pt, c)) == c && sec1_framing_ok(sec1_form(pt, c));
 pub axiom fn axiom_sec1_valid_framing(b: Seq<u8>) ensures sec1_valid(b) ==> sec1_framing_ok(b) && sec1_form(sec1_point(b), sec1_is_compressed(b)) == b;
 pub axiom fn axiom_pub_valid(d: Seq<u8>, c: bool) ensures valid_secret(d) ==> sec1_valid(sec1_form(pub_of(d), c));
@@ -183,25 +177,9 @@ pub struct Sha256rV { pub absorbed: Ghost<Seq<u8>>, pub reverse: bool }
 impl HashDigest for Sha256rV { open spec fn hd_absorbed(&self) -> Seq<u8> { self.absorbed@ } open spec fn hd_reversed(&self) -> bool { self.reverse } }
 // the message digest selected by SigningHash, as 32 bytes
 pub open spec fn signing_digest(algo: SigningHash, msg: Seq<u8>) -> Seq<u8> { if algo is Sha256 { spec_sha256(msg) } else { spec_sha256(spec_sha256(msg)) } }
-pub mod hex {
-    use super::*;
-    #[verifier::external_body] pub fn encode<T: AsRef<[u8]>>(data: T) -> (r: String) ensures r@ == hex_enc(data.bytes_v()) { unimplemented!() }
-    #[verifier::external_body] pub fn decode(s: &str) -> (r: Result<Vec<u8>, FromHexError>)
-        ensures match r { Ok(v) => hex_dec(s@) == Some(v@), Err(_) => hex_dec(s@) is None } { unimplemented!() }
-}
 pub mod k256 { pub mod ecdsa { pub use super::super::SecpSignature as Signature; } pub use super::K256PublicKey as PublicKey; pub use super::SecretKey; }
 pub assume_specification<T> [<[T]>::split_last] (s: &[T]) -> (r: Option<(&T, &[T])>)
     ensures s@.len() == 0 ==> r is None, s@.len() > 0 ==> r is Some && *r->Some_0.0 == s@.last() && r->Some_0.1@ == s@.drop_last();
-pub mod bs58 {
-    use super::*;
-    pub struct EncodeBuilder { pub b: Ghost<Seq<u8>> }
-    pub struct DecodeBuilder { pub s: Ghost<Seq<char>> }
-    #[verifier::external_body] pub fn encode<T: AsRef<[u8]>>(data: T) -> (r: EncodeBuilder) ensures r.b@ == data.bytes_v() { unimplemented!() }
-    #[verifier::external_body] pub fn decode(s: &str) -> (r: DecodeBuilder) ensures r.s@ == s@ { unimplemented!() }
-    impl EncodeBuilder { #[verifier::external_body] pub fn into_string(self) -> (r: String) ensures r@ == b58_enc(self.b@) { unimplemented!() } }
-    impl DecodeBuilder { #[verifier::external_body] pub fn into_vec(self) -> (r: Result<Vec<u8>, Bs58DecodeError>)
-        ensures match r { Ok(v) => b58_dec(self.s@) == Some(v@), Err(_) => b58_dec(self.s@) is None } { unimplemented!() } }
-}
 // ---- projective arithmetic used by ECIES / BIP32 ----
 pub struct ProjectivePoint { pub pt: Ghost<Option<Seq<u8>>> }   // None: the identity
 impl K256PublicKey {
